@@ -339,7 +339,9 @@ func (c *fctx) applyContract(fr *frame, key string, ct *spec.FuncContract, fn *s
 		c.addObl(&Obligation{Name: fr.prefix + "call-requires:" + short + "#" + lbl + "@" + c.P.SrcLine(pos), Kind: "requires", Guard: reach, Goal: g.t, Pos: c.pos(pos), SrcLine: c.P.SrcLine(pos), Clause: r.Src})
 	}
 	// recursion: the measure must decrease (lexicographically) and be bounded below
-	if fn != nil && fn == c.fn && len(ct.Decr) > 0 && len(c.fnDecr0) == len(ct.Decr) && !c.noRecCheck {
+	// recursion (direct, or mutual between functions of one package that both carry a measure of the same arity)
+	sameGroup := fn != nil && c.fn != nil && fn != c.fn && fn.Pkg != nil && fn.Pkg == c.fn.Pkg && len(ct.Decr) > 0 && len(c.fnDecr0) == len(ct.Decr)
+	if fn != nil && (fn == c.fn || sameGroup) && len(ct.Decr) > 0 && len(c.fnDecr0) == len(ct.Decr) && !c.noRecCheck {
 		var now []string
 		for _, d := range ct.Decr {
 			now = append(now, e.tr(d).t)
